@@ -5,6 +5,8 @@ ScheduleHandle / schedulers / Sampler / request contexts on a virtual-time loop 
 Task case (JSON):
   clients            C (1..4)
   global_offset      index of the task's first client among all clients of the element (for ramp-up), total_clients
+  via_allocator      None | +k / -k: the allocations are produced by the real Allocator for a schedule in which an unrelated element that is
+                     k clients wider than the task's element comes before (+) / after (-) it
   warmup_iterations / iterations / warmup_time_period / time_period / ramp_up   (None = absent)
   throughput         None | {"kind": "number"|"string"|"interval", "value": x, "unit": "ops/s"|"docs/s"...}
   schedule           None | "deterministic" | "poisson"
@@ -129,10 +131,30 @@ def run_task(spec, complete_at=None, cancel_at=None):
     total_clients = spec.get("total_clients", spec["clients"] + spec.get("global_offset", 0))
     allocs = []
     contexts = {}
-    for i in range(spec["clients"]):
-        gid = spec.get("global_offset", 0) + i
-        allocs.append(driver.ClientAllocation(gid, driver.TaskAllocation(task, i, gid, total_clients)))
-        contexts[gid] = driver.ClientContext(client_id=gid, parent_worker_id=0)
+    if spec.get("via_allocator") is not None:
+        # the task allocations come out of the real Allocator: the task sits in a parallel element (siblings before / after it make up
+        # global_offset and total_clients) of a schedule that also has an unrelated, wider element before or after it
+        goff = spec.get("global_offset", 0)
+        rest = total_clients - goff - spec["clients"]
+        sibling_spec = dict(spec, throughput=None, op_type="sim-op")
+        members = ([build_task(dict(sibling_spec, clients=goff), name="sib-before")] if goff else []) + [task]
+        members += [build_task(dict(sibling_spec, clients=rest), name="sib-after")] if rest else []
+        element = track.Parallel(members) if len(members) > 1 else task
+        wide = track.Task("wide", track.Operation("wide-op", "sim-op", params={"task": "wide"}, param_source="sim-source"),
+                          iterations=1, clients=total_clients + abs(spec["via_allocator"]))
+        schedule = [wide, element] if spec["via_allocator"] > 0 else [element, wide]
+        for row, entries in enumerate(driver.Allocator(schedule).allocations):
+            for entry in entries:
+                for ta in (entry if isinstance(entry, list) else [entry]):
+                    if getattr(ta, "task", None) is task:
+                        allocs.append(driver.ClientAllocation(row, ta))
+                        contexts[row] = driver.ClientContext(client_id=row, parent_worker_id=0)
+        allocs.sort(key=lambda a: a.task.client_index_in_task)
+    else:
+        for i in range(spec["clients"]):
+            gid = spec.get("global_offset", 0) + i
+            allocs.append(driver.ClientAllocation(gid, driver.TaskAllocation(task, i, gid, total_clients)))
+            contexts[gid] = driver.ClientContext(client_id=gid, parent_worker_id=0)
     cancel, complete = threading.Event(), threading.Event()
     sink = {}
     real_schedule_for = driver.schedule_for
